@@ -148,7 +148,7 @@ std::string run_case(const std::vector<std::string>& w)
    int flags = 0, width = 80, again = 0;
    std::vector<std::string> cmds, argToks;
    std::vector<int> argOwner;                       // -1: main handler, else index of the sub-group
-   struct Group { std::string keyspec; int flags; std::string desc; };
+   struct Group { std::string keyspec; int flags; std::string desc; int parent; };   // parent: -1 = main handler
    std::vector<Group> groups;
    std::unique_ptr<TextUsage> txt1, txt2;
    for (size_t t = 1; t < w.size(); ++t)
@@ -162,8 +162,11 @@ std::string run_case(const std::vector<std::string>& w)
       else if (tok.rfind("g:", 0) == 0)
       {
          auto f = fields(tok);
-         if (f.size() != 4) return "setup:invalid_argument ##";
-         groups.push_back({ f[1], std::stoi(f[2]), vf::unhexs(f[3]) });
+         // g:<key>:<flags>:<desc>[:<parent>] : a sub-group handler, attached to the main handler or to sub-group <parent>
+         if (f.size() != 4 && f.size() != 5) return "setup:invalid_argument ##";
+         const int parent = f.size() == 5 ? std::stoi(f[4]) : -1;
+         if (parent >= static_cast<int>(groups.size())) return "setup:invalid_argument ##";
+         groups.push_back({ f[1], std::stoi(f[2]), vf::unhexs(f[3]), parent });
       }
       else if (tok.rfind("t1=", 0) == 0) txt1 = makeText(tok.substr(3));
       else if (tok.rfind("t2=", 0) == 0) txt2 = makeText(tok.substr(3));
@@ -179,7 +182,7 @@ std::string run_case(const std::vector<std::string>& w)
       if (width != 80) h->setUsageLineLength(width);
       for (auto& g : groups)
       {
-         subs.emplace_back(new pa::Handler(*h, g.flags));
+         subs.emplace_back(new pa::Handler(g.parent < 0 ? *h : *subs[static_cast<size_t>(g.parent)], g.flags));
          if (width != 80) subs.back()->setUsageLineLength(width);
       }
       for (auto& a : argToks)
@@ -218,7 +221,9 @@ std::string run_case(const std::vector<std::string>& w)
                               { return new TextConstraint(text, cc); });
          }
       }
-      for (size_t g = 0; g < groups.size(); ++g) h->addArgument(groups[g].keyspec, *subs[g], groups[g].desc);
+      for (size_t g = 0; g < groups.size(); ++g)
+         (groups[g].parent < 0 ? h.get() : subs[static_cast<size_t>(groups[g].parent)].get())
+            ->addArgument(groups[g].keyspec, *subs[g], groups[g].desc);
    } catch (const std::exception& e)
    {
       return std::string("setup:") + excClass(e) + " ##";
